@@ -3,4 +3,5 @@ CONSTANTS
 SPECIFICATION TraceSpec
 INVARIANTS Verified LayoutOK Consecutive
 POSTCONDITION TraceAccepted
+ALIAS TAlias
 CHECK_DEADLOCK FALSE
